@@ -38,6 +38,7 @@ pub enum Slot {
 }
 
 pub enum Handle {
+    X(ipc::IpcReceiverSet),
     S(IpcSender<Msg>),
     R(IpcReceiver<Msg>),
     BS(IpcBytesSender),
@@ -151,6 +152,74 @@ impl Agent {
                     json!({"len_ok": got.len() == n, "bytes_ok": got == &want[..], "got_len": got.len()})
                 },
                 _ => json!({"error": "read of a handle that is not a region"}),
+            },
+            "setnew" => {
+                self.handles.insert(geti(op, "nh"), Handle::X(ipc::IpcReceiverSet::new().unwrap()));
+                json!({})
+            },
+            "setadd" => {
+                let r = match self.handles.remove(&geti(op, "h")) {
+                    Some(Handle::R(r)) => r,
+                    _ => return json!({"error": "setadd: not a typed receiver"}),
+                };
+                match self.handles.get_mut(&geti(op, "x")) {
+                    Some(Handle::X(set)) => match set.add(r) {
+                        Ok(id) => json!({"id": id}),
+                        Err(e) => json!({"error": format!("add failed: {:?}", e)}),
+                    },
+                    _ => json!({"error": "setadd: not a set"}),
+                }
+            },
+            "setdrain" => {
+                let want = geti(op, "n") as usize;
+                let set = match self.handles.get_mut(&geti(op, "x")) {
+                    Some(Handle::X(set)) => set,
+                    _ => return json!({"error": "setdrain: not a set"}),
+                };
+                // per id: tags in arrival order, and whether a closed event was seen (and that it came last)
+                let mut per: std::collections::BTreeMap<u64, (Vec<u64>, bool, bool)> = Default::default();
+                let mut seen = 0;
+                let mut intact = true;
+                while seen < want {
+                    PROGRESS.fetch_add(1, Ordering::SeqCst);
+                    let evs = match set.select() {
+                        Ok(e) => e,
+                        Err(e) => return json!({"error": format!("select failed: {:?}", e)}),
+                    };
+                    for ev in evs {
+                        seen += 1;
+                        match ev {
+                            ipc::IpcSelectionResult::MessageReceived(id, m) => {
+                                let e = per.entry(id).or_default();
+                                if e.1 {
+                                    e.2 = true; // a message after the closed event
+                                }
+                                match m.to::<Msg>() {
+                                    Ok(m) => {
+                                        let big = m.pad.len() > 3;
+                                        if m.pad != payload(m.tag, if big { self.big } else { 3 }) {
+                                            intact = false;
+                                        }
+                                        e.0.push(m.tag);
+                                    },
+                                    Err(_) => intact = false,
+                                }
+                            },
+                            ipc::IpcSelectionResult::ChannelClosed(id) => {
+                                let e = per.entry(id).or_default();
+                                if e.1 {
+                                    e.2 = true; // closed twice
+                                }
+                                e.1 = true;
+                            },
+                        }
+                    }
+                }
+                let evs: Vec<Value> = per
+                    .iter()
+                    .map(|(id, (tags, closed, bad))| json!({"id": id, "tags": tags, "closed": closed, "bad_order": bad}))
+                    .collect();
+                json!({"n": seen, "evs": evs, "intact": intact})
             },
             "send" | "probe" => self.send(op),
             "recv" | "drain" => self.recv(op),
@@ -363,6 +432,40 @@ pub fn mismatch(op: &Value, obs: &Value) -> Option<String> {
                     .unwrap_or_default();
                 if a != b {
                     return Some(format!("slot kinds/positions differ: model {:?}, code {:?}", a, b));
+                }
+            }
+        },
+        "setadd" => {
+            if geti(op, "id") != geti(obs, "id") {
+                return Some(format!("set.add returned id {}, the model says {}", geti(obs, "id"), geti(op, "id")));
+            }
+        },
+        "setdrain" => {
+            if obs.get("intact") != Some(&json!(true)) {
+                return Some("a message received through the set is altered or undecodable".into());
+            }
+            if geti(obs, "n") != geti(op, "n") {
+                return Some(format!("select returned {} events where the model has {} pending", geti(obs, "n"), geti(op, "n")));
+            }
+            let got: Vec<Value> = obs["evs"].as_array().cloned().unwrap_or_default();
+            for w in op["evs"].as_array().cloned().unwrap_or_default() {
+                let id = geti(&w, "id");
+                let wtags: Vec<i64> = w["tags"].as_array().map(|a| a.iter().filter_map(|x| x.as_i64()).collect()).unwrap_or_default();
+                let wclosed = w["closed"].as_bool().unwrap_or(false);
+                let g = got.iter().find(|g| geti(g, "id") == id);
+                let (gtags, gclosed, bad): (Vec<i64>, bool, bool) = match g {
+                    Some(g) => (
+                        g["tags"].as_array().map(|a| a.iter().filter_map(|x| x.as_i64()).collect()).unwrap_or_default(),
+                        g["closed"].as_bool().unwrap_or(false),
+                        g["bad_order"].as_bool().unwrap_or(false),
+                    ),
+                    None => (vec![], false, false),
+                };
+                if gtags != wtags || gclosed != wclosed || bad {
+                    return Some(format!(
+                        "set member {}: events (tags {:?}, closed {}, out-of-order {}) where the model has (tags {:?}, closed {})",
+                        id, gtags, gclosed, bad, wtags, wclosed
+                    ));
                 }
             }
         },
